@@ -99,6 +99,18 @@ def k_pair(ctx, cases):
 		if f32_bits(d2) != bits:
 			ctx.violation('pair', c, f'distance not symmetric: {float(d1)!r} vs {float(d2)!r}', impl=bits, swapped=f32_bits(d2))
 			continue
+		# the same pair through the bulk entry points (any mix of integer types, any container)
+		if len(c['a']) + len(c['b']) <= 4000:
+			from gambit.metric import jaccarddist_array
+			from gambit.sigs.base import SignatureArray
+			bulk = {'jaccarddist_array(a, SignatureArray([b]))': f32_bits(jaccarddist_array(a, SignatureArray([b]))[0]),
+			        'jaccarddist_array(b, SignatureArray([a]))': f32_bits(jaccarddist_array(b, SignatureArray([a]))[0]),
+			        'jaccarddist_array(a, [b])': f32_bits(jaccarddist_array(a, [b])[0])}
+			badb = [k for k, v in bulk.items() if v != bits]
+			if badb:
+				ctx.violation('pair', c, f'{badb[0]} has bits {bulk[badb[0]]} but jaccarddist(a, b) has bits {bits} (dtypes {c["da"]}, {c["db"]})',
+				              impl=bulk, pairwise=bits)
+				continue
 		jb = f64_bits(j1)
 		jwant = f64_bits(1.0 - float(np.float32(d1)))
 		if jb != jwant:
@@ -236,6 +248,15 @@ def generate(ctx):
 	for da, db in (('u8', 'i8'), ('i8', 'i8'), ('u8', 'u8')):
 		for A, B in fam:
 			yield 'pair', dict(a=_place(A, 2 ** 63 - 3), b=_place(B, 2 ** 63 - 3), da=da, db=db)
+	# one array in a wider type holding values beyond the other's range (residues collide mod 2^16 / 2^32)
+	for da, db, lim in (('u4', 'u2', 2 ** 16), ('i4', 'u2', 2 ** 16), ('u8', 'u2', 2 ** 16), ('i8', 'i2', 2 ** 15),
+	                    ('u8', 'u4', 2 ** 32), ('i8', 'u4', 2 ** 32), ('u8', 'i4', 2 ** 31)):
+		for _ in range(ctx.pick(4, 30)):
+			small = sorted(rng.sample(range(min(lim, 3000)), rng.randint(1, 8)))
+			big = sorted({lim * rng.randint(1, 3) + x for x in rng.sample(small, rng.randint(1, len(small)))})
+			A = sorted(set(rng.sample(small, rng.randint(0, len(small)))) | set(big))
+			ctx.count('stream:wider-than-other')
+			yield 'pair', dict(a=A, b=small, da=da, db=db)
 	# random structured pairs
 	nrand = ctx.pick(300, 3000)
 	for _ in range(nrand):
